@@ -40,7 +40,7 @@ ASSUMPTIONS = [
     "issubclass defines the order on plain classes, ABCs and protocols",
     "different-origin generic pairs are evidence only (the statement fixes the same-origin case)",
 ]
-REPORT_COUNTERS = ["hierarchies", "pairs_L1", "reflexive_L2", "class_pairs_L3", "class_triples_L3", "generic_L4",
+REPORT_COUNTERS = ["hierarchies", "pairs_L1", "reflexive_L2", "reflexive_respelled_L2", "class_pairs_L3", "class_triples_L3", "generic_L4",
                    "member_L5", "late_registration_L3", "pairs_seen_in_dispatch", "online_mirror_checked", "exceptions"]
 
 
@@ -289,6 +289,34 @@ def check_case(spec, res):
             if r is not Order.SAME:
                 res.violation("L2-reflexive", [label, sorted(T.heads(t))], spec, observed={"type": n, "result": str(r)},
                               acceptable="SAME")
+    # L2b: the same type written with the members of every (nested) union / intersection / Literal in reverse order
+    def mirror(t):
+        if isinstance(t, str):
+            return t
+        if t[0] in ("U", "I"):
+            return [t[0], *[mirror(m) for m in reversed(t[1:])]]
+        if t[0] == "L":
+            return ["L", *reversed(t[1:])]
+        if t[0] == "T":
+            return ["T", *[mirror(m) for m in t[1:]]]
+        return t
+    for t, n in zip(types, names):
+        if isinstance(t, str) or T.depth(t) < 2 or t[0] not in ("U", "I", "T"):
+            continue
+        m = mirror(t)
+        if m == t:
+            continue
+        try:
+            om = build(m)
+        except Exception:  # noqa: BLE001
+            continue
+        res.ev()
+        res.count("reflexive_respelled_L2")
+        for x, y, label in ((objs[n], om, "written-vs-mirrored"), (om, objs[n], "mirrored-vs-written")):
+            r = safe(x, y)
+            if r is not Order.SAME:
+                res.violation("L2-reflexive-respelled", [label, sorted(T.heads(t))], spec,
+                              observed={"type": n, "mirrored": str(om)[:120], "result": str(r)}, acceptable="SAME")
     # L1
     for (i, a), (j, b) in itertools.combinations(enumerate(types), 2):
         na, nb = names[i], names[j]
